@@ -105,7 +105,6 @@ fn c15_upgrader(nargs: usize) -> u8 {
 }
 // HARNESS props=C15 tier=quick profile=upg shape="no migration data; version strings <=2 symbolic bytes; each step may fail"
 #[kani::proof]
-#[kani::unwind(68)]
 #[kani::stub(axelar_soroban_std::interfaces::upgradable::xc_UpgradableClient_version, spec_version)]
 #[kani::stub(axelar_soroban_std::interfaces::upgradable::xc_UpgradableClient_upgrade, spec_upgrade)]
 #[kani::stub(soroban_sdk::model::invoke_raw, spec_invoke)]
@@ -116,7 +115,6 @@ fn c15_upgrader_d0() {
 }
 // HARNESS props=C15 tier=quick profile=upg shape="two migration arguments"
 #[kani::proof]
-#[kani::unwind(68)]
 #[kani::stub(axelar_soroban_std::interfaces::upgradable::xc_UpgradableClient_version, spec_version)]
 #[kani::stub(axelar_soroban_std::interfaces::upgradable::xc_UpgradableClient_upgrade, spec_upgrade)]
 #[kani::stub(soroban_sdk::model::invoke_raw, spec_invoke)]
